@@ -110,6 +110,16 @@ HIST = ("diagline_dist", "vertline_dist", "white_vertline_dist")
 
 
 # ------------------------------------------------------------ helpers ----
+
+def held(ctx, r, x):
+    """the series in one of the representations a caller may hold it in
+    (same values: Fortran order, strided view, read-only, float32, int)"""
+    from pvm.gen.held import as_held
+    v, tag = as_held(r, np.array(x), allow_list=False)
+    ctx.count("input_held_as:" + tag)
+    return v
+
+
 def sig(cname, what, rel, tags=()):
     t = "+".join(tags)
     return f"{cname}.{what}:{rel}" + (f":{t}" if t else "")
@@ -508,7 +518,7 @@ def check_single(ctx, mods, cname, x, metric, mode, value, dim, tau,
     if embedded:
         kw.update(dim=dim, tau=tau)
     np.random.seed(int(r.integers(1 << 30)))
-    ok, obj = ctx.call(cls, np.array(x), metric=metric, normalize=normalize,
+    ok, obj = ctx.call(cls, held(ctx, r, x), metric=metric, normalize=normalize,
                        missing_values=missing, silence_level=3, **kw)
     ctx.evals()
     E = state_matrix(x, dim, tau, normalize)
@@ -883,7 +893,7 @@ def draw_cross(ctx, mods, r, cid, nmax):
     kw = {mode: value}
     if dim is not None:
         kw.update(dim=dim, tau=tau)
-    ok, obj = ctx.call(mods[cname], np.array(x), np.array(y), metric=metric,
+    ok, obj = ctx.call(mods[cname], held(ctx, r, x), held(ctx, r, y), metric=metric,
                        silence_level=3, **kw)
     ctx.evals()
     if not ok:
@@ -1079,7 +1089,7 @@ def draw_joint(ctx, mods, r, cid, nmax):
     kw = {mode: value}
     if dim is not None:
         kw.update(dim=dim, tau=tau)
-    ok, obj = ctx.call(mods[cname], np.array(x), np.array(y), metric=metric,
+    ok, obj = ctx.call(mods[cname], held(ctx, r, x), held(ctx, r, y), metric=metric,
                        normalize=normalize, lag=lag, silence_level=3, **kw)
     ctx.evals()
     if not ok:
@@ -1221,7 +1231,7 @@ def draw_isrn(ctx, mods, r, cid, nmax):
     kw = {mode: value}
     if dim is not None:
         kw.update(dim=dim, tau=tau)
-    ok, obj = ctx.call(mods[cname], np.array(x), np.array(y), metric=metric,
+    ok, obj = ctx.call(mods[cname], held(ctx, r, x), held(ctx, r, y), metric=metric,
                        silence_level=3, **kw)
     ctx.evals()
     if not ok:
